@@ -25,6 +25,7 @@ func init() {
 			ruleLabelFormatDirection(r)
 			ruleTemplateBinding(r)
 			ruleDropKeep(r)
+			ruleValueStrGuarded(r)
 			ruleDecolorize(r)
 			ruleCHParseSites3(r)
 		},
